@@ -423,8 +423,30 @@ ModuleApiStep(k, rec) ==
 QrDefaultStep(k, rec) ==
   Require(rec.reported = rec.size /\ rec.all_default = 1 /\ rec.rowlen = rec.size /\ rec.fields_none = 1, k, rec, "G04", "QRCode::default is not an all-light, all-data square without fields")
 
+\* custom shape callbacks: called once per dark module, with (row + margin, column + margin) and with the module of that very
+\* cell (value dark, its own type label) -- the map a region-aware callback sees is the map C15 is about
+CallbackStep(k, rec) ==
+  IF rec.kind # "Ok" THEN OkKind(k, rec, "C12")
+  ELSE LET n == rec.size m == rec.margin
+           T == UnpackTypes(n, rec.types)
+           dark == { q \in (0..n-1) \X (0..n-1) : DarkAt(rec.vals, q[1], q[2]) }
+           want == { <<q[2] + m, q[1] + m, IF rec.which = 0 THEN T[q[1]*n + q[2] + 1] + 1 ELSE 5>> : q \in dark }
+           got == { rec.cells[i] : i \in DOMAIN rec.cells }
+       IN /\ Require(rec.parsed = 1, k, rec, "C12", "document is not well-formed XML")
+          /\ Require(Len(rec.cells) = Cardinality(dark) /\ { <<c[1], c[2]>> : c \in got } = { <<w[1], w[2]>> : w \in want }, k, rec, "C12", "sub-paths are not exactly the dark modules")
+          /\ Require(got = want, k, rec, "C15", "a custom shape callback is handed a module whose value or type label is not that of its cell")
+ApiContractsStep(k, rec) ==
+  /\ Require(rec.levels = << <<76>>, <<77>>, <<81>>, <<72>> >>, k, rec, "G03", "error-correction level does not print as its letter")
+  /\ Require(Len(rec.err_display[1]) > 0 /\ Len(rec.err_display[2]) > 0 /\ rec.err_display[1] # rec.err_display[2] /\ Len(rec.err_debug[1]) > 0 /\ rec.err_debug[1] # rec.err_debug[2],
+              k, rec, "G03", "the two build errors do not print as two different non-empty messages")
+  /\ Require(rec.convert = <<"Io", "Svg", "Io", "Image", "Image">>, k, rec, "G03", "renderer error converted to the wrong ConvertError kind")
+  /\ Require(rec.module_eq = <<1, 1, 1, 0, 1, 0>>, k, rec, "G04", "Module comparison / From<bool>")
+  /\ Require(rec.image_err_display = <<98, 111, 111, 109>>, k, rec, "G03", "ImageError does not print its message")
+
 StepOf(k, rec, ly, s) ==
-  CASE rec.ev = "ConvColor" -> (IF ConvColorStep(k, rec) THEN s ELSE s)
+  CASE rec.ev = "SvgCallback" -> (IF CallbackStep(k, rec) THEN s ELSE s)
+    [] rec.ev = "ApiContracts" -> (IF ApiContractsStep(k, rec) THEN s ELSE s)
+    [] rec.ev = "ConvColor" -> (IF ConvColorStep(k, rec) THEN s ELSE s)
     [] rec.ev = "ConvShape" -> (IF ConvShapeStep(k, rec) THEN s ELSE s)
     [] rec.ev = "ModuleApi" -> (IF ModuleApiStep(k, rec) THEN s ELSE s)
     [] rec.ev = "QrDefault" -> (IF QrDefaultStep(k, rec) THEN s ELSE s)
